@@ -139,6 +139,11 @@ def generate(rng, tier):
             keys.append([k2, v2])
     for j in range(rng.choice([0, 0, 1, 2])):
         keys.append(["x%d" % j, tdsl.gen_value(rng, ["leaf"], pool, positions, ("x",))])
+    if kind in ("schema", "dataclass") and rng.random() < 0.12 and not any(k in ("kz", "tot") for k, _ in keys):
+        # a property whose setter reads a field declared before it: the order in which the parsed items are handed
+        # to the instance must not depend on the strategy
+        plan["psetter"] = True
+        keys += [["kz", rng.choice([2, "3"])], ["tot", rng.choice([4, "5"])]]
     rng.shuffle(keys)
     plan["input"] = keys
     if kind in ("schema", "dataclass") and rng.random() < 0.15:
@@ -228,6 +233,18 @@ def build(plan, dfs, collect):
             fo = _field_obj(f)
             if fo is not None:
                 ns[f["name"]] = fo
+        if plan.get("psetter"):
+            ns["__annotations__"] = dict({"kz": int}, **ns["__annotations__"])
+            ns["kz"] = 1
+
+            def tot_get(self) -> int:
+                return self.__dict__.get("_t", 0)
+
+            def tot_set(self, v: int):
+                self.__dict__["_t"] = v * self.kz
+            tot_get.__annotations__ = {"return": int}
+            tot_set.__annotations__ = {"v": int}
+            ns["tot"] = property(tot_get, tot_set)
         if plan.get("helper_method"):
             def helper(self):
                 return 1
